@@ -193,6 +193,10 @@ class Instantiator:
         if fn == "sqrt":
             ax.append(z3.Implies(x >= 0, z3.And(a >= 0, a * a == x)))
             N("sqrt: x>=0 => sqrt(x)>=0 and sqrt(x)^2=x")
+            if deep and z3.is_mul(x) and x.num_args() == 2:
+                p_, q_ = x.arg(0), x.arg(1)
+                ax.append(z3.Implies(z3.And(p_ >= 0, q_ >= 0), a == UF["sqrt"](p_) * UF["sqrt"](q_)))
+                N("p,q>=0 => sqrt(p q)=sqrt(p)sqrt(q)")
         elif fn == "cbrt":
             ax.append(a * a * a == x)
             N("cbrt(x)^3=x")
@@ -216,6 +220,9 @@ class Instantiator:
             if deep:
                 ax.append(z3.Implies(x > 0, UF["exp"](a) == x))
                 N("x>0 => exp(log x)=x")
+                if z3.is_app(x) and x.decl().name() == "sqrt":
+                    ax.append(z3.Implies(x.arg(0) > 0, 2 * a == UF["log"](x.arg(0))))
+                    N("t>0 => log(sqrt t)=log(t)/2")
         elif fn in ("sin", "cos"):
             s, c = UF["sin"](x), UF["cos"](x)
             ax += [s * s + c * c == 1, s <= 1, s >= -1, c <= 1, c >= -1]
